@@ -84,7 +84,8 @@ CHECKS = {
               "required parameter) and TLC evaluates it, with a sanity theorem, for every enumerated (signature, call shape): all legal "
               "signature shapes up to 3-4 parameters x 0-3 positionals x keyword subsets incl. undeclared names and attempted overrides of "
               "built-ins. Each case is executed as a real exec-generated callable (method on machine/model/listener, function, partial, "
-              "coroutine) in a random callback group through a real event; the recorded locals must equal the spec's binding. All callables "
+              "coroutine) in a random callback group through a real event; the recorded locals must equal the spec's binding, value by value "
+              "and by identity (sent values include None and the other falsy singletons). All callables "
               "share one qualified name so that signature-cache collisions would show."),
         design_ref="DESIGN.md 5 C07",
         technique="TLA+ transcription of the binding rule evaluated by TLC as oracle over an enumerated signature x call-shape space; differential execution on the implementation",
